@@ -2089,6 +2089,14 @@ int EGLPNUM_TYPENAME_ILLlib_chgsense (
 			EGLPNUM_TYPENAME_EGlpNumZero (qslp->rangeval[rowlist[i]]);
 	}
 
+	/* the coefficient of the logical may have changed sign: the row-major copy
+	 * of the matrix (problems read from files have one) is out of date */
+	if (qslp->rA)
+	{
+		EGLPNUM_TYPENAME_ILLlp_rows_clear (qslp->rA);
+		ILL_IFFREE(qslp->rA);
+	}
+
 CLEANUP:
 
 	EG_RETURN (rval);
